@@ -193,6 +193,14 @@ func variants(r *rand.Rand, op *gen.Op, mono *ast.Schema) []gen.Op {
 	if defaultRe.MatchString(q) {
 		add(defaultRe.ReplaceAllString(q, "$1"), nil)
 	}
+	// defaults changed: same text but for the default of a variable the request leaves out
+	if m := regexp.MustCompile(`(\$v\d+: (Int|String|Boolean|Float)) = ([^,)]+)`).FindStringSubmatchIndex(q); m != nil {
+		other := map[string]string{"Int": "41", "String": `"other"`, "Boolean": "true", "Float": "8.25"}[q[m[4]:m[5]]]
+		if cur := strings.TrimSpace(q[m[6]:m[7]]); cur == other {
+			other = map[string]string{"Int": "42", "String": `"else"`, "Boolean": "false", "Float": "9.5"}[q[m[4]:m[5]]]
+		}
+		add(q[:m[6]]+other+q[m[7]:], nil)
+	}
 	// fragment type condition: same name, other type (valid only on abstract spots) / other body
 	if m := fragOnRe.FindStringSubmatch(q); m != nil {
 		if def := mono.Types[m[2]]; def != nil {
@@ -282,6 +290,12 @@ func (p c14) Gen(c *run.Ctx, idx int) (json.RawMessage, error) {
 		}
 		if len(names) > 0 {
 			cs.Pool = append(cs.Pool, gen.Op{Query: "{ __type(name: \"" + pick(r, names) + "\") " + sel + " }", Tags: []string{"introspection-literal"}})
+		}
+		// the type name as the default of a variable the requests leave out: two texts that differ in the default only
+		if len(names) >= 2 && r.Intn(2) == 0 {
+			for i := 0; i < 2; i++ {
+				cs.Pool = append(cs.Pool, gen.Op{Query: fmt.Sprintf("query T($n: String = %q) { __type(name: $n) %s }", names[(i*7+idx)%len(names)], sel), Tags: []string{"introspection-default"}})
+			}
 		}
 	}
 	if idx%4 == 1 {
